@@ -119,8 +119,24 @@ Definition stake_rec (s : state) (v d : addr) (a : Z) (u : bool) : vrec :=
 
 Definition debit_of (a : Z) : Z := wrap64 a * base.     (* ToCoinWithBase *)
 
+(* fix 48c76fc: the three handlers reject an amount that is negative or does not fit int64 *)
+Definition amount_ok (a : Z) : bool := (0 <=? a) && (a <? 2^63).
+
+(* fix d276709: DeliverTx runs the handler's Validate first (as CheckTx does).  Modelled: the
+   state/amount-dependent part of stakeTx/unstakeTx/withdrawTx.Validate.  The static part
+   (signatures by the stake account and the validator key, fee currency and price, address and
+   public-key well-formedness, OLT currency) holds for every generated transaction (assumption). *)
+Definition validate_stake (a bal : Z) : bool :=
+  (0 <=? debit_of a) && (0 <=? bal - debit_of a).            (* coin.IsValid, CheckBalanceFromAddress *)
+Definition saddr_matches (s : state) (v d : addr) : bool :=   (* ErrStakeAddressMismatch *)
+  match vrecs s !! v with Some r => Pos.eqb (vr_saddr r) d | None => true end.
+Definition validate_unstake (s : state) (v d : addr) (a : Z) : bool :=
+  saddr_matches s v d && (0 <? debit_of a).                    (* coin <= 0 is ErrInvalidAmount *)
+
 Definition do_stake (s : state) (v d : addr) (a : Z) (frozen : bool) (bal h m : Z)
            (purge_block fee_fail : bool) : state * bool :=
+  if negb (validate_stake a bal) then (s, false) else
+  if negb (amount_ok a) then (s, false) else
   if frozen then (s, false) else
   match stake_update s v d h m with
   | None => (s, false)
@@ -136,6 +152,8 @@ Definition do_stake (s : state) (v d : addr) (a : Z) (frozen : bool) (bal h m : 
 (* ---- UNSTAKE : runCheckUnstake ---- *)
 Definition do_unstake (s : state) (v d : addr) (a : Z) (frozen req_open : bool) (h m : Z)
            (purge_block fee_fail : bool) : state * bool :=
+  if negb (validate_unstake s v d a) then (s, false) else
+  if negb (amount_ok a) then (s, false) else
   if frozen then (s, false) else
   if req_open then (s, false) else
   match minus3 s v d a with
@@ -156,6 +174,8 @@ Definition do_unstake (s : state) (v d : addr) (a : Z) (frozen req_open : bool) 
 
 (* ---- WITHDRAW : runWithdraw ---- *)
 Definition do_withdraw (s : state) (v d : addr) (a : Z) (frozen fee_fail : bool) : state * bool :=
+  if negb (validate_unstake s v d a) then (s, false) else
+  if negb (amount_ok a) then (s, false) else
   if frozen then (s, false) else
   if zget (dbnd s) d - a <? 0 then (s, false) else
   if fee_fail then (s, false) else
@@ -255,10 +275,11 @@ Definition op_amount (o : op) : option Z :=
   | OStake _ _ a _ _ _ _ _ _ | OUnstake _ _ a _ _ _ _ _ _ | OWithdraw _ _ a _ _ => Some a
   | _ => None
   end.
-(* C11.stake_amount_ge_2p63 : the amount does not fit int64 (ToCoinWithBase narrows it) *)
+(* C11.stake_amount_ge_2p63 (FIXED by 48c76fc; kept to state that such inputs are now rejected):
+   the amount does not fit int64 (ToCoinWithBase narrows it) *)
 Definition trig_narrow (o : op) : bool :=
   match op_amount o with Some a => (2^63 <=? a) | None => false end.
-(* C11.negative_amount_deliver : negative amount (only reachable on the deliver path) *)
+(* C11.negative_amount_deliver (FIXED by 48c76fc): negative amount (only reachable on the deliver path) *)
 Definition trig_negative (o : op) : bool :=
   match op_amount o with Some a => (a <? 0) | None => false end.
 Definition trig_amount (o : op) : bool := trig_narrow o || trig_negative o.
